@@ -33,7 +33,9 @@ AllKinds == {"none", "login", "normal", "seed", "eq", "upload", "temp", "asset",
 \* "clearcap": the addon clears the attribution (flow.cap_data = None); "setcap": it replaces it
 \* with another cap of the universe (AltCap)
 AllBehaviours == {"ignore", "take", "takeResume", "resume", "inject", "rewrite", "nostream",
-                  "raise", "takeRaise", "handled", "clearcap", "setcap"}
+                  "raise", "takeRaise", "handled", "clearcap", "setcap", "mirror"}
+\* "mirror": the addon copies the flow, points the copy at another host, drops its attribution and
+\* asks the proxy process to replay it (addon_examples/message_mirror.py) while the original goes on
 \* "cap": the input that makes the cap-specific code raise (malformed LLSD body for Seed /
 \*        EventQueueGet / upload caps, missing wrapped cap for a wrapper, non-XML-RPC login reply)
 \* "logger": the message logger raises
@@ -91,7 +93,8 @@ AltCap == Alt(CHOOSE a \in Open : \A b \in Open : a <= b)
 
 (*************************** scripted addon hooks **************************)
 \* st = [meta, taken, resumed, puts, exc, stop]
-Put(st) == [st EXCEPT !.puts = Append(@, st.meta), !.resumed = TRUE, !.taken = FALSE]
+\* puts: what the handling put on the main -> proxy queue, in order: [kind, meta]
+Put(st) == [st EXCEPT !.puts = Append(@, [kind |-> "callback", meta |-> st.meta]), !.resumed = TRUE, !.taken = FALSE]
 Raised(st, swallow) == IF swallow THEN st ELSE [st EXCEPT !.exc = TRUE]
 CanTake(st) == ~st.taken /\ ~st.resumed            \* assert in HippoHTTPFlow.take
 CanResume(st) == ~st.resumed                       \* assert in HippoHTTPFlow.resume
@@ -108,6 +111,8 @@ Hook(b, st, swallow) ==
       [] b = "takeRaise" -> IF CanTake(st) THEN Raised([st EXCEPT !.taken = TRUE], swallow)
                             ELSE Raised(st, swallow)
       [] b = "handled" -> [st EXCEPT !.stop = TRUE]
+      [] b = "mirror" -> [st EXCEPT !.puts = Append(@, [kind |-> "replay",
+                                                         meta |-> [st.meta EXCEPT !.cap = NoCap, !.url = "mirror"]])]
       [] b = "clearcap" -> [st EXCEPT !.meta.cap = NoCap]
       [] b = "setcap" -> IF Open = {} THEN st ELSE [st EXCEPT !.meta.cap = AltCap]
 
@@ -240,8 +245,8 @@ HandleBody(cfg) ==
            m0 == Deser(it.meta)     \* from_state: identifiers of a closed session match nothing
        IN /\ LET st == Finally(IF ev = "request" THEN RunRequest(cfg, m0) ELSE RunResponse(cfg, m0)) IN
                /\ mf' = [ev |-> ev, meta |-> st.meta, taken |-> st.taken, resumed |-> st.resumed]
-               /\ toQ' = toQ \o [i \in 1..Len(st.puts) |-> [kind |-> "callback", ev |-> ev, meta |-> st.puts[i]]]
-               /\ hb' = [hb EXCEPT ![ev] = @ + Len(st.puts)]
+               /\ toQ' = toQ \o [i \in 1..Len(st.puts) |-> [kind |-> st.puts[i].kind, ev |-> ev, meta |-> st.puts[i].meta]]
+               /\ hb' = [hb EXCEPT ![ev] = @ + Cardinality({i \in 1..Len(st.puts) : st.puts[i].kind = "callback"})]
                /\ out' = [n |-> "Handle", exc |-> st.exc \/ \E i \in DOMAIN oth : oth[i].q /\ oth[i].r, res |-> "ok"]
           /\ handled' = handled \cup {ev}
           /\ fromQ' = Tail(fromQ)
@@ -283,7 +288,13 @@ Apply(bad) ==
     /\ toQ # <<>>
     /\ LET it == Head(toQ) IN
          /\ (bad => it.kind = "callback")
-         /\ px' = [phase |-> IF bad THEN "dead"
+         \* a replay item creates ANOTHER flow (fresh identity, the copy's content): it is intercepted
+         \* and its request event queued like any other flow's; the original is not touched by it
+         /\ oth' = IF it.kind = "replay"
+                   THEN Append(oth, [r |-> FALSE, pos |-> IF fromQ = <<>> THEN "ahead" ELSE "behind", q |-> TRUE, back |-> 0])
+                   ELSE oth
+         /\ px' = IF it.kind = "replay" THEN px ELSE
+                 [phase |-> IF bad THEN "dead"
                              ELSE IF it.kind = "preempt" THEN px.phase
                              ELSE IF it.ev = "request" /\ px.phase = "req" THEN "mid"
                              ELSE IF it.ev = "response" /\ px.phase = "resp" THEN "end" ELSE px.phase,
@@ -293,7 +304,7 @@ Apply(bad) ==
     /\ fixed' = [fixed EXCEPT !.preempted = @ \/ Head(toQ).kind = "preempt"]
     /\ toQ' = Tail(toQ)
     /\ out' = [n |-> "Apply", exc |-> FALSE, res |-> IF bad THEN "bad" ELSE "ok"]
-    /\ UNCHANGED <<tgt, fromQ, mf, hb, handled, calls, closed, oth>>
+    /\ UNCHANGED <<tgt, fromQ, mf, hb, handled, calls, closed>>
 
 \* The viewer logs out: SessionManager.close_session, and the session's and its regions' objects
 \* become unreferenced and are collected.  Queue items and the proxy-side flow carry identifiers
@@ -369,7 +380,8 @@ FlagsStable == \A m \in Copies : m = Meta0 \/ (m.browser = fixed.browser /\ m.ri
 \* after resolution the attribution is never lost again on its way through the processes
 \* (a hand-back made after the owning session went away names the cap without session and region)
 AttributionKept == ("request" \in handled /\ Owned(tgt.k) /\ px.phase # "dead" /\ ~fixed.recap)
-                     => \A i \in 1..Len(toQ) : toQ[i].meta.cap = tgt \/ (tgt.s \in closed /\ toQ[i].meta.cap = Gone(tgt))
+                     => \A i \in 1..Len(toQ) : toQ[i].kind = "replay" \/ toQ[i].meta.cap = tgt
+                                                  \/ (tgt.s \in closed /\ toQ[i].meta.cap = Gone(tgt))
 AppliedAttribution == (ap["request"] = 1 /\ Owned(tgt.k) /\ px.phase \in {"mid", "resp", "end"} /\ ~fixed.recap)
                         => px.meta.cap = tgt \/ (tgt.s \in closed /\ px.meta.cap = Gone(tgt))
 \* the law is per flow: whatever else waits in the queue and whichever handler raises, every
@@ -383,7 +395,7 @@ GoneReadsNone == mf.meta.cap.s \notin closed
 InjectedSurvives == \A i \in 1..Len(toQ) :
                         toQ[i].meta.pinj <=> toQ[i].meta.resp \in {"addon", "handler", "redir", "redirAddon"}
 \* a wrapper redirect never points at a stale (pre-rewrite) url
-RedirectFollowsRewrite == \A i \in 1..Len(toQ) : LET m == toQ[i].meta IN
+RedirectFollowsRewrite == \A i \in 1..Len(toQ) : LET m == toQ[i].meta IN toQ[i].kind = "replay" \/
                               /\ (m.resp = "redir" => m.url = "orig") /\ (m.resp = "redirAddon" => m.url = "addon")
 (*************************** observation (binding B1) **********************)
 Obs == [px |-> [icpt |-> px.icpt, meta |-> px.meta],
